@@ -835,11 +835,20 @@ func (d *Driver) nextRaw() Event {
 			if len(own) == 0 {
 				continue
 			}
-			x := own[d.R.Intn(len(own))]
-			d.do(Event{Kind: "Delegate", Creator: x.D, Val: x.V, Amount: 20000000}) // more than the balance
-			if d.Stop != "" {
-				continue
+			// (three times out of four a delegator that is itself a storage node with the full service status: the one whose
+			// role the follow-up decides)
+			var full []PDeleg
+			for _, x := range own {
+				for _, n := range d.St.Nodes {
+					if n.A == x.D && n.Status == 15 {
+						full = append(full, x)
+					}
+				}
 			}
+			if len(full) > 0 && d.R.Intn(4) != 0 {
+				own = full
+			}
+			x := own[d.R.Intn(len(own))]
 			var others []PVal
 			for _, v := range d.St.Vals {
 				has := false
@@ -852,12 +861,36 @@ func (d *Driver) nextRaw() Event {
 					others = append(others, v)
 				}
 			}
+			isNode := false
+			for _, n := range d.St.Nodes {
+				if n.A == x.D {
+					isNode = true
+				}
+			}
 			if len(others) == 0 || d.R.Intn(4) == 0 {
+				d.do(Event{Kind: "Delegate", Creator: x.D, Val: x.V, Amount: 20000000}) // more than the balance
+				if d.Stop != "" {
+					continue
+				}
 				// somebody else moves stake on the same validator
 				who := d.pick(append(append([]string{}, d.P.Nodes...), "a09", "a10"))
 				return Event{Kind: "Delegate", Creator: who, Val: x.V, Amount: []int64{1000, 250000}[d.R.Intn(2)]}
 			}
 			vb := others[d.R.Intn(len(others))]
+			if isNode {
+				// the delegator is made a node that meets everything but the share on the validator it declares (vb: no stake
+				// there yet), so that the follow-up is the operation that decides its role
+				for _, pl := range d.St.Pledges {
+					if pl.A == x.D && pl.Cap < d.C.Cfg.VstorThreshold {
+						d.do(Event{Kind: "AddVstorage", Creator: x.D, Size: d.C.Cfg.VstorThreshold - pl.Cap})
+					}
+				}
+				d.do(Event{Kind: "Reset", Creator: x.D, Status: 15, Val: vb.V, Tx: d.P.HotKeys[x.D]})
+			}
+			d.do(Event{Kind: "Delegate", Creator: x.D, Val: x.V, Amount: 20000000}) // more than the balance
+			if d.Stop != "" {
+				continue
+			}
 			sn, sd := ratio(d.C.Cfg.ShareThreshold)
 			amt := x.Shares / 10
 			if sd > 2*sn {
@@ -873,7 +906,6 @@ func (d *Driver) nextRaw() Event {
 			if amt < 1 {
 				amt = 1
 			}
-			// the delegator is (made) a node that meets everything but the share, declaring no validator or this one
 			return Event{Kind: "Delegate", Creator: x.D, Val: vb.V, Amount: amt}
 		case "ResetSuper":
 			n := d.pick(d.P.Nodes)
